@@ -34,6 +34,11 @@ def build(rng, tier):
             if '.' in n.split('/')[-1][1:]: add('/' + n.rsplit('.', 1)[0])   # extensionless
         for d in dirs:
             add('/' + d); add('/' + d + '/'); add('/' + d + '?x=1'); add('/' + d + '/index.html'); add('/' + d + '/missing.txt')
+        # query strings and fragments whose own text looks like a path decision (ends in '/', '.html', 'index.html', empty):
+        # the lookup has to be made on the parsed path, never on the raw target
+        TAILS = ['?next=/', '?return_to=/a/b/', '#/', '?', '#', '?#', '?x=.html', '#x.html', '?x=/index.html', '?/', '#sec/', '?a=1&b=2/', '?x=1#/', '/?x=/', '/#/']
+        for base in ['/' + d for d in dirs] + ['/' + n for n in names[:6]] + ['/' + n[:-5] for n in names if n.endswith('.html')][:4] + ['/']:
+            for tl in TAILS: add(base + tl)
         if ti % 4 == 1:
             tree.file(tree.cwd + b'/docs/x.txt', b'x').file(tree.cwd + b'/docs.html', b'<d>').file(tree.cwd + b'/old.html.html', b'<o>')
             tree.file(tree.cwd + b'/idx/index.html/inner.txt', b'i').file(tree.cwd + b'/ghost.html/inner.txt', b'g')
